@@ -9,7 +9,7 @@ WEIGHTS = {'newc': 1, 'newp': 0.4, 'cc': 6, 'cp': 3, 'pc': 3, 'pp': 4, 'remove':
 
 def make_cases(chk):
     n = 60 if chk.tier == 'quick' else 600
-    hi = 12 if chk.tier == 'quick' else 30
+    hi = 12 if chk.tier == 'quick' else 16     # the model's exact rationals grow with the length of a history: more histories, not longer ones
     gens = []
     for i in range(n):
         rng = random.Random(chk.seed * 100003 + 20000 + i)
@@ -25,7 +25,9 @@ def nontrivial(prog, obs):
 def run(chk, gate, status):
     gens = make_cases(chk)
     chk.assumptions += ['sizes are compared within 1e-8 relative to the amount measured (the library rounds stored amounts to 1e-10 storage units)']
-    return histcheck.run(chk, gens, oracles.c02, 'C02', RULE, nontrivial)
+    cov = histcheck.run(chk, gens, oracles.c02, 'C02', RULE, nontrivial)
+    cov['operations_under_configuration_variants'] = histcheck.variants(chk, gens, oracles.c02, 'C02v', limit=8 if chk.tier == 'quick' else 60)
+    return cov
 
 
 def replay(path):
